@@ -735,6 +735,39 @@ func ruleMGetSort(p *Prog, r *Result) {
 			if c, ok := st.Val.(*ssa.Call); ok && isCompactCall(c) {
 				dedup = true
 			}
+			if !dedup {
+				// second recognised idiom: a `seen` map - every append of a key is guarded by a failed
+				// comma-ok lookup of that same key
+				apps := appendsInto(st.Val)
+				all := len(apps) > 0
+				for _, app := range apps {
+					elems := appendedElems(app)
+					guarded := false
+					for _, a := range dominatingAtoms(app.Block()) {
+						ex, ok := a.X.(*ssa.Extract)
+						if !ok || ex.Index != 1 {
+							continue
+						}
+						lk, ok := ex.Tuple.(*ssa.Lookup)
+						if !ok || !lk.CommaOk {
+							continue
+						}
+						bv, isB := constBool(a.Y)
+						if !isB || ((a.Op == token.EQL) == bv) {
+							continue // must be "not present"
+						}
+						for _, e := range elems {
+							if lk.Index == e {
+								guarded = true
+							}
+						}
+					}
+					if !guarded {
+						all = false
+					}
+				}
+				dedup = all
+			}
 			r.add(dedup, key+"|dedup", p.InstrPos(in), "the sorted key list is compacted (slices.Compact) so that a key listed twice is read - and returned - once")
 		})
 	}
